@@ -58,6 +58,11 @@ EmitValues(op, dt) ==
          /\ \A i \in 1..Len(cat) :
                ScalarDefined(op, dt, cat[i], b) =>
                   PrintT(<<"CASE", ToJson(CaseRec("values", op, ScalarT(dt, cat[i]), ScalarT(dt, b), <<"values", dt, "both_rank0">>))>>)
+         \* one element, but of rank 1 and 2: the broadcast result keeps the rank
+         /\ \A i \in 1..Len(cat) :
+               ScalarDefined(op, dt, cat[i], b) =>
+                  /\ PrintT(<<"CASE", ToJson(CaseRec("values", op, T(dt, <<1, 1>>, <<cat[i]>>), T(dt, <<1>>, <<b>>), <<"values", dt, "single_element_rank2">>))>>)
+                  /\ PrintT(<<"CASE", ToJson(CaseRec("values", op, T(dt, <<1>>, <<cat[i]>>), ScalarT(dt, b), <<"values", dt, "single_element_rank1">>))>>)
          /\ (j = 1 /\ Len(selfs) > 0 =>
                PrintT(<<"CASE", ToJson(CaseRec("values", op, Vec(dt, selfs), Vec(dt, selfs), <<"values", dt, "same_operand">>) @@ [same |-> <<-1, 0>>])>>))
          /\ (Len(as) > 0 => PrintT(<<"CASE", ToJson(CaseRec("values", op, Vec(dt, as), ScalarT(dt, b), <<"values", dt>>))>>))
